@@ -365,6 +365,9 @@ def step (s : DState) (line : String) : DState × List String :=
     match cmd.splitOn " " with
     | "assert" :: _ =>
       if impl == "ok" then (s, []) else diff s "SPEC" s!"{cmd}: {impl}"
+    | "selfseq" :: t :: _ =>
+      -- a sequence judged against itself by the harness (complete passes agree, abandoned passes are their start)
+      withTree s t fun _ _ => if impl == "ok" then (s, []) else diff s "SPEC" s!"{cmd}: {impl}"
     | ["check15", _] => (s, [])
     | "new" :: t :: kargs =>
       match t.toNat?, parseKind kargs with
